@@ -77,6 +77,13 @@ def generate(rng, tier):
     for regime in ("K0", "K4", "K1"):
         for _ in range(nrand):
             cases.append(_rand_history(rng, regime))
+    for _ in range(nrand // 3):
+        # the K0 shapes on the decimal grid D1 (ticks of 0.1 s: non-dyadic doubles)
+        h = _rand_history(rng, "K0")
+        h["regime"] = "D1"
+        # no arithmetic on decimal bounds (0.4 - 0.3 is not the double 0.1): copies use the identity only
+        h["ops"] = [[o[0], o[1], o[2], (["id"] if o[3] is not None else None)] if o[0] == "copy" else o for o in h["ops"]]
+        cases.append(h)
     return {"cases": cases, "meta": {
         "exhaustive": True, "exhaustive_histories": nex, "exhaustive_depth": depth,
         "random_histories": 3 * nrand,
